@@ -312,10 +312,14 @@ theorem simple_json_agree (gs gj : Grammar) (hs : Reachable gs) (hj : Reachable 
 
 /-! ### A failing operation changes nothing -/
 
-/-- When an operation answers an error (`KeyError`, `ValueError`, `TypeError`) no grammar changed. -/
-theorem step_error_unchanged (w : World) (op : Op) (e : Err) (h : (step w op).2 = .err e) :
-    (step w op).1 = w := by
-  cases op <;> simp only [step] at h ⊢ <;> (repeat' split at h) <;>
+/-- When an operation answers an error (`KeyError`, `ValueError`, `TypeError`, `AttributeError`) no
+    grammar changed — but for the three operations that Python defines item by item
+    (`defaults.update(...)`, `required_names |= ...`), which keep the items applied before the failing
+    one; those still preserve every invariant above (they are ordinary cases of `wf_step`). -/
+theorem step_error_unchanged (w : World) (op : Op) (e : Err) (hp : op.partialOnError = false)
+    (h : (step w op).2 = .err e) : (step w op).1 = w := by
+  cases op <;> simp only [Op.partialOnError, Bool.true_eq_false] at hp <;>
+    simp only [step] at h ⊢ <;> (repeat' split at h) <;>
     first
     | rfl
     | (cases h <;> rfl)
@@ -370,6 +374,16 @@ example : (demoPair.get 0).map (·.elems) = some ([("a", PyT.int), ("b", PyT.nda
 example : compatible .int (.leaf .int) = true ∧ compatible .ndarray (.nd [.flt]) = true ∧
     compatible .int (.leaf .bool) = false := by decide
 example : hasTypePy .int (.leaf .bool) = true ∧ hasTypeJS { Node.any with num := .int } (.leaf .bool) = false := by
+  decide
+/-- The item-by-item operations: `defaults.update({"a": 1, "q": 2, "x": 3})` sets `a`, raises on `q`,
+    never reaches `x` — and the grammar stays well formed. -/
+example : (step (run emptyWorld demoOps) (.defupd 0 [("a", "1"), ("q", "2"), ("x", "3")])).2 = .err .key ∧
+    ((step (run emptyWorld demoOps) (.defupd 0 [("a", "1"), ("q", "2"), ("x", "3")])).1.get 0).map (·.defaults)
+      = some [("a", "1")] := by decide
+/-- Restoring a snapshot of the defaults after the element was deleted is rejected and changes nothing
+    (the class of the seeded mutant `defaults-update-bypasses-membership`). -/
+example : (step (run emptyWorld (demoOps ++ [.del 0 "a"])) (.defassignfrom 0 1)).2 = .err .key ∧
+    ((step (run emptyWorld (demoOps ++ [.del 0 "a"])) (.defupdfrom 0 1)).1.get 0).map (·.defaults) = some [] := by
   decide
 /-- `step_error_unchanged`: errors do occur. -/
 example : (step (run emptyWorld demoOps) (.del 0 "q")).2 = .err .key := by decide
